@@ -430,6 +430,10 @@ void convolve_2d(SrcView const& src_view, Kernel const& kernel, DstView const& d
         typename color_space_type<DstView>::type
     >::value, "Source and destination views must have pixels with the same color space");
 
+    // nth_channel_view forms a reference to pixel (0,0), which an empty view does not have
+    if (src_view.width() == 0 || src_view.height() == 0)
+        return;
+
     for (std::size_t i = 0; i < src_view.num_channels(); i++)
     {
         // the i-th channel of the color space in both views: their layouts may differ (rgb and bgr)
